@@ -5,13 +5,14 @@
 (* bounded universe (TLC enumerates them as initial states).               *)
 EXTENDS Schema, Json, SequencesExt
 
-CONSTANTS TN, RN, XN, Missing   \* XN: further names an inverse may carry (misnamed inverses)
+CONSTANTS TN, RN, XN, Missing,  \* XN: further names an inverse may carry (misnamed inverses)
+          FX                      \* further values of FromType (the empty one: a relationship declared by hand)
 
 VARIABLE s
 
 RelVals(owner) ==
     { [ft |-> f, fn |-> n, to1 |-> TRUE, tt |-> t, tn |-> m, fo1 |-> FALSE] :
-        f \in {owner} \cup (TN \ {owner}), n \in RN, t \in TN \cup {Missing}, m \in RN \cup XN \cup {""} }
+        f \in {owner} \cup (TN \ {owner}) \cup FX, n \in RN, t \in TN \cup {Missing}, m \in RN \cup XN \cup {""} }
 
 \* Schemas are grown one literal relationship at a time (no validation: Check
 \* must cope with any schema, however it was made), so TLC reaches every
